@@ -95,6 +95,8 @@ func handle(p []string) (res string) {
 		return opUnmarshal(p[1:])
 	case "autogen":
 		return opAutogen(p[1:])
+	case "race":
+		return opRace(p[1:])
 	case "untrusted":
 		return opUntrusted(p[1:])
 	case "hist":
